@@ -26,15 +26,27 @@ def units(N, D):
     return pre, u1, 'au::Meters'
 
 
+# the same ratios between units built on DIFFERENT bases (so that the pair is not "a unit and a scaling of itself"), incl. the spellings `base * mag<K>() / mag<1>()` and
+# `base * mag<1>() / mag<K>()`: the ratio is fixed by the SI definition of the inch (0.0254 m), typed here by hand
+XUNITS = {
+    'm127_in': ('#include "au/units/meters.hh"\n//--\n#include "au/units/inches.hh"\n//--\nstruct VU_x127 : decltype(au::Meters{} * au::mag<127ULL>() / au::mag<1ULL>()) {};', 'VU_x127', 'au::Inches'),       # 127 m / 0.0254 m = 5000
+    'm5000th_in': ('#include "au/units/meters.hh"\n//--\n#include "au/units/inches.hh"\n//--\nstruct VU_x5000 : decltype(au::Meters{} * au::mag<1ULL>() / au::mag<5000ULL>()) {};', 'VU_x5000', 'au::Inches'),  # (1/5000 m) / 0.0254 m = 1/127
+    'ft_in': ('#include "au/units/feet.hh"\n//--\n#include "au/units/inches.hh"', 'au::Feet', 'au::Inches'),
+    'anon_ft_m': ('#include "au/units/feet.hh"\n//--\n#include "au/units/meters.hh"', 'decltype(au::Feet{} * au::mag<1250ULL>() / au::mag<1ULL>())', 'au::Meters'),     # 1250 ft = 381 m
+}
+XQUICK = [('i32', 'i32', 5000, 1, 'm127_in'), ('i32', 'i32', 1, 127, 'm5000th_in'), ('i64', 'i32', 12, 1, 'ft_in'), ('i32', 'i32', 381, 1, 'anon_ft_m')]
+
+
 def obligations(tier, seed):
     obs = []
-    insts = QUICK + (MORE if tier == 'thorough' else [])
-    for k, (R1, R2, N, D) in enumerate(insts):
+    insts = QUICK + XQUICK + (MORE if tier == 'thorough' else [])
+    for k, inst in enumerate(insts):
+        (R1, R2, N, D) = inst[:4]
         c1, c2 = G.ctype(R1), G.ctype(R2)
         CR = G.common(R1, R2); RT = G.promoted(CR)
         W = G.W_for(R1, R2, CR, RT)
-        pre, u1, u2 = units(N, D)
-        tag = '%s_%s_%d_%d' % (R1, R2, N, D)
+        pre, u1, u2 = units(N, D) if len(inst) == 4 else XUNITS[inst[4]]
+        tag = '%s_%s_%d_%d' % (R1, R2, N, D) + ('' if len(inst) == 4 else '_' + inst[4])
         q1 = 'au::make_quantity<%s>(a)' % u1; q2 = 'au::make_quantity<%s>(b)' % u2
         A = '((%s)a * %s)' % (W, G.lit_w(W, N)); B = '((%s)b * %s)' % (W, G.lit_w(W, D))
         fits = lambda e, r: '(%s >= %s && %s <= %s)' % (e, G.lit_w(W, G.tmin(r)), e, G.lit_w(W, G.tmax(r))) if W in ('i64', 'i128') \
